@@ -1,1 +1,138 @@
-// harness code mounted in serde_avro_fast (see DESIGN.md)
+// Mounted in serde_avro_fast::object_container_file_encoding::writer — C15
+use super::*;
+use crate::schema::self_referential::SchemaNode;
+use crate::verif::{io::*, spec};
+
+const SYNC: [u8; 16] = [0xA5; 16];
+
+/// A `Writer` in exactly the state `WriterBuilder::build` leaves it in after the header has been written
+/// (Null codec; the header itself goes through serde flatten + Schema::json(): outside, see DESIGN C06).
+fn writer_after_header<'c, 's>(
+	config: &'c mut SerializerConfig<'s>,
+	approx_block_size: u32,
+) -> Writer<'c, 's, FixedBuf<96>> {
+	Writer {
+		inner: WriterInner {
+			serializer_state: SerializerState::with_opt_owned_config(Vec::new(), SerializerConfigRef::Borrowed(config)),
+			sync_marker: SYNC,
+			compression_codec_state: CompressionCodecState::new(Compression::Null),
+			n_elements_in_block: 0,
+			approx_block_size,
+			block_header_buffer: [0; 20],
+			block_header_size: None,
+		},
+		writer: Some(FixedBuf::new()),
+	}
+}
+
+/// Reference container-block parser (specification §"Object Container Files"): blocks of
+/// count, byte size, that many bytes of `long` datums, 16-byte sync marker. Returns the values (<= 4).
+/// None = the bytes are not a whole number of well-formed blocks.
+fn parse_blocks(data: &[u8], out: &mut [i64; 4], n: &mut usize) -> Option<()> {
+	let mut d = spec::Dec::new(data);
+	let mut guard = 0;
+	while d.pos < data.len() {
+		if guard > 4 {
+			return None;
+		}
+		guard += 1;
+		let count = d.long()?;
+		let size = d.long()?;
+		if count <= 0 || size < 0 {
+			return None;
+		}
+		let start = d.pos;
+		let mut i = 0;
+		while i < count {
+			if *n >= 4 {
+				return None;
+			}
+			out[*n] = d.long()?;
+			*n += 1;
+			i += 1;
+		}
+		if (d.pos - start) as i64 != size {
+			return None;
+		}
+		let sync = d.take(16)?;
+		let mut k = 0;
+		while k < 16 {
+			if sync[k] != SYNC[k] {
+				return None;
+			}
+			k += 1;
+		}
+	}
+	Some(())
+}
+
+/// after a call that returned Ok: the sink holds a valid sequence of blocks whose values are a prefix of
+/// `accepted[..n_acc]`; returns how many values are in the sink
+fn check_sink(w: &Writer<'_, '_, FixedBuf<96>>, accepted: &[i64; 4], n_acc: usize) -> usize {
+	let sink = w.inner().bytes();
+	let mut got = [0i64; 4];
+	let mut n = 0;
+	let ok = parse_blocks(sink, &mut got, &mut n);
+	assert!(ok.is_some(), "c15: bytes delivered to the sink are not a whole number of valid blocks");
+	assert!(n <= n_acc, "c15: the file contains more values than were accepted");
+	let mut i = 0;
+	while i < n {
+		assert!(got[i] == accepted[i], "c15: the file's values are not a prefix of the accepted values");
+		i += 1;
+	}
+	n
+}
+
+fn small() -> i64 {
+	let v: i64 = kani::any();
+	kani::assume(v >= -64 && v < 64);
+	v
+}
+
+// @harness props=C15x tier=off timeout=1800
+// @bound Null codec, schema long, approx_block_size symbolic 0..=3, history: serialize(v0), serialize(v1), serialize(true: does not match the schema -> Err), serialize(v2), finish_block; values one-byte varints (symbolic); after EVERY call the sink is a valid block sequence holding a prefix of the accepted values, at the end exactly all of them once; the failed value leaves no trace
+#[kani::proof]
+#[kani::unwind(18)]
+#[kani::stub(alloc::fmt::format, crate::verif::stub_format)]
+fn c15_writer_history() {
+	let mut storage = [SchemaNode::Long];
+	let st: &'static mut [SchemaNode<'static>] = unsafe { std::mem::transmute(&mut storage[..]) };
+	let schema = crate::schema::self_referential::verif::schema_over(st, [0; 8]);
+	let mut config = SerializerConfig::new(&schema);
+	let approx: u32 = kani::any();
+	kani::assume(approx <= 3);
+	let mut w = writer_after_header(&mut config, approx);
+	let mut accepted = [0i64; 4];
+	let v0 = small();
+	let v1 = small();
+	let v2 = small();
+	let r = w.serialize(v0);
+	assert!(r.is_ok(), "c15: conforming value rejected");
+	std::mem::forget(r);
+	accepted[0] = v0;
+	check_sink(&w, &accepted, 1);
+	let r = w.serialize(v1);
+	assert!(r.is_ok(), "c15: conforming value rejected");
+	std::mem::forget(r);
+	accepted[1] = v1;
+	check_sink(&w, &accepted, 2);
+	let r = w.serialize(true);
+	assert!(r.is_err(), "c15: value that does not match the schema accepted");
+	std::mem::forget(r);
+	check_sink(&w, &accepted, 2);
+	let r = w.serialize(v2);
+	assert!(r.is_ok(), "c15: conforming value rejected after a failed one");
+	std::mem::forget(r);
+	accepted[2] = v2;
+	let in_sink = check_sink(&w, &accepted, 3);
+	kani::cover!(in_sink == 0);
+	kani::cover!(in_sink == 3);
+	let r = w.finish_block();
+	assert!(r.is_ok(), "c15: finish_block failed on an infallible sink");
+	std::mem::forget(r);
+	let n = check_sink(&w, &accepted, 3);
+	assert!(n == 3, "c15: after finish_block the file must contain every accepted value exactly once");
+	std::mem::forget(w);
+	std::mem::forget(config);
+	std::mem::forget(schema);
+}
